@@ -106,7 +106,7 @@ def check(an: Analysis) -> None:
             res_a = _counter_budget(an, ob1, f, g, d, loop, head, call, tr, LIMIT)
             if res_a is None:
                 continue
-            guard, incs, pol, ctr, hentries = res_a
+            guard, incs, pol, ctr, hentries, at_first_failure = res_a
         # ------------------------------------------------------------ C14.2 / C14.3 handlers
         for h in tr.handlers:
             classes = g.handler_classes(h)
@@ -239,8 +239,11 @@ def check(an: Analysis) -> None:
                         ob7.fail(f, sn.ast, f"the delay function is not applied to ({ctr}, {exc_name}) in that order")
                     elif not form_b:
                         w = g.search([rh_entry], lambda n, sn=sn: n is sn, skip_node=lambda n: n in incs, skip_edge=sc.skip)
-                        if w is not None:
+                        lo_, hi_ = g.count_range(lambda n: n in incs, rh_entry, lambda n, sn=sn: n is sn, skip_edge=sc.skip)
+                        if w is not None and (at_first_failure != 1 or hi_ > 0):
                             ob7.fail(f, sn.ast, "the delay function sees the attempt number before it was advanced (attempt numbers start at 1)", CFG.show_path(w))
+                        elif w is None and at_first_failure + 1 != 1:
+                            ob7.fail(f, sn.ast, f"the first pause is computed for attempt number {at_first_failure + 1}: the counter is {at_first_failure} when the first attempt fails and is advanced before the delay function is applied (attempt numbers start at 1)")
                 else:
                     if isinstance(arg, ast.Call) and d.origins(arg.func) <= {f"param:{DELAY}"} and d.origins(arg.func):
                         ob5.fail(f, sn.ast, f"delay is declared `{ann_txt}` but {label} is not matched by the numeric arm: it falls into the callable arm and is *called* (TypeError on the first failure)")
@@ -352,7 +355,7 @@ def _counter_budget(an: Analysis, ob1, f: FunctionInfo, g: CFG, d: Deps, loop: a
     w = g.search(hentries, lambda n: n is head, skip_edge=lambda a, b, lab: a is guard and lab == pol, include_start=True)
     if w is not None:
         ob1.fail(f, guard.ast, "the loop can continue without passing the attempt-limit guard", CFG.show_path(w))
-    return guard, incs, pol, ctr, hentries
+    return guard, incs, pol, ctr, hentries, c0 + (1 if pre else 0)
 
 
 def _range_budget(an: Analysis, ob1, f: FunctionInfo, d: Deps, loop: ast.For, final_call: Node, g: CFG, LIMIT: str = "limit"):
